@@ -33,9 +33,10 @@ import (
 var chainPriv = ed25519.GenPrivKeyFromSecret([]byte("verif-c05"))
 var genesisTime = time.Date(2020, 1, 1, 0, 0, 0, 0, time.UTC)
 
-func mkGenDoc() *types.GenesisDoc {
+func mkGenDoc(ih int64) *types.GenesisDoc {
 	return &types.GenesisDoc{
 		ChainID:         "c05",
+		InitialHeight:   ih,
 		GenesisTime:     genesisTime,
 		ConsensusParams: types.DefaultConsensusParams(),
 		Validators:      []types.GenesisValidator{{Address: chainPriv.PubKey().Address(), PubKey: chainPriv.PubKey(), Power: 10}},
@@ -72,6 +73,7 @@ func (nopMempool) CloseWAL()                     {}
 
 // chainData: a real chain produced once by the real BlockExecutor on scratch stores.
 type chainData struct {
+	ih      int64 // genesis InitialHeight: block k (1..n) has height ih+k-1
 	n       int
 	txs     [][]int
 	blocks  []*types.Block   // 1..n
@@ -84,15 +86,32 @@ type chainData struct {
 
 var chainCache sync.Map
 
-func buildChain(key string, txs [][]int) (*chainData, error) {
+// idx: block index of a height (0 = none)
+func (cd *chainData) idx(h int64) int {
+	if h < cd.ih || h >= cd.ih+int64(cd.n) {
+		return 0
+	}
+	return int(h-cd.ih) + 1
+}
+
+// next height after h (state/store cursor semantics: 0 = nothing yet)
+func (cd *chainData) next(h int64) int64 {
+	if h == 0 {
+		return cd.ih
+	}
+	return h + 1
+}
+
+func buildChain(key string, txs [][]int, ih int64) (*chainData, error) {
+	key = fmt.Sprintf("%d|%s", ih, key)
 	if v, ok := chainCache.Load(key); ok {
 		return v.(*chainData), nil
 	}
 	n := len(txs)
-	cd := &chainData{n: n, txs: txs, blocks: make([]*types.Block, n+1), parts: make([]*types.PartSet, n+1),
+	cd := &chainData{ih: ih, n: n, txs: txs, blocks: make([]*types.Block, n+1), parts: make([]*types.PartSet, n+1),
 		commits: make([]*types.Commit, n+1), states: make([][]byte, n+1), hashes: make([][]byte, n+1),
 		resps: make([]*tmstate.ABCIResponses, n+1)}
-	genDoc := mkGenDoc()
+	genDoc := mkGenDoc(ih)
 	state, err := sm.MakeGenesisState(genDoc)
 	if err != nil {
 		return nil, err
@@ -117,15 +136,17 @@ func buildChain(key string, txs [][]int) (*chainData, error) {
 	pv := types.NewMockPVWithParams(chainPriv, false, false)
 	be := sm.NewBlockExecutor(stateStore, log.NewNopLogger(), pa.Consensus(), nopMempool{}, sm.EmptyEvidencePool{})
 	lastCommit := types.NewCommit(0, 0, types.BlockID{}, nil)
-	for h := 1; h <= n; h++ {
+	for k := 1; k <= n; k++ {
+		h := k
+		hh := ih + int64(k) - 1
 		var btxs []types.Tx
-		for _, id := range txs[h-1] {
+		for _, id := range txs[k-1] {
 			btxs = append(btxs, mkTx(id))
 		}
-		block, ps := state.MakeBlock(int64(h), btxs, lastCommit, nil, state.Validators.GetProposer().Address)
+		block, ps := state.MakeBlock(hh, btxs, lastCommit, nil, state.Validators.GetProposer().Address)
 		blockID := types.BlockID{Hash: block.Hash(), PartSetHeader: ps.Header()}
-		vs := types.NewVoteSet(genDoc.ChainID, int64(h), 0, tmproto.PrecommitType, state.Validators)
-		commit, err := types.MakeCommit(blockID, int64(h), 0, vs, []types.PrivValidator{pv}, genesisTime.Add(time.Duration(h)*time.Second))
+		vs := types.NewVoteSet(genDoc.ChainID, hh, 0, tmproto.PrecommitType, state.Validators)
+		commit, err := types.MakeCommit(blockID, hh, 0, vs, []types.PrivValidator{pv}, genesisTime.Add(time.Duration(k)*time.Second))
 		if err != nil {
 			return nil, err
 		}
@@ -136,7 +157,7 @@ func buildChain(key string, txs [][]int) (*chainData, error) {
 		cd.blocks[h], cd.parts[h], cd.commits[h] = block, ps, commit
 		cd.states[h] = state.Bytes()
 		cd.hashes[h] = append([]byte{}, state.AppHash...)
-		cd.resps[h], _ = stateStore.LoadABCIResponses(int64(h))
+		cd.resps[h], _ = stateStore.LoadABCIResponses(hh)
 		lastCommit = commit
 	}
 	chainCache.Store(key, cd)
@@ -197,7 +218,7 @@ type pcase struct {
 }
 
 func newPCase(cd *chainData) *pcase {
-	p := &pcase{cd: cd, genDoc: mkGenDoc()}
+	p := &pcase{cd: cd, genDoc: mkGenDoc(cd.ih)}
 	p.app = &recApp{valKey: chainPriv.PubKey()}
 	p.app.tick = p.tick
 	sdb := midDB{DB: dbm.NewMemDB(), p: p}
@@ -292,6 +313,8 @@ func (l *capLogger) With(kv ...interface{}) log.Logger   { return l }
 
 func classify(s string) string {
 	switch {
+	case strings.Contains(s, "too far below block store base"):
+		return "err-app-too-low"
 	case strings.Contains(s, "is higher than core"):
 		return "err-app-too-high"
 	case strings.Contains(s, "StateBlockHeight ("):
@@ -330,7 +353,8 @@ func (p *pcase) line(hd string) string {
 	resp := pipeRespHeight(p)
 	sc := true
 	if st.LastBlockHeight > 0 {
-		sc = int(st.LastBlockHeight) <= p.cd.n && bytes.Equal(st.Bytes(), p.cd.states[st.LastBlockHeight])
+		k := p.cd.idx(st.LastBlockHeight)
+		sc = k > 0 && bytes.Equal(st.Bytes(), p.cd.states[k])
 	}
 	delta := j[p.seen:]
 	p.seen = len(j)
@@ -344,7 +368,7 @@ func (p *pcase) line(hd string) string {
 
 // the height stored under lastABCIResponseKey: probe the public API for the height it accepts
 func pipeRespHeight(p *pcase) string {
-	for h := int64(0); h <= int64(p.cd.n)+2; h++ {
+	for h := int64(0); h <= p.cd.ih+int64(p.cd.n)+2; h++ {
 		if _, err := p.inner.LoadLastABCIResponse(h); err == nil {
 			return strconv.FormatInt(h, 10)
 		} else if strings.Contains(err.Error(), "no last ABCI response") {
@@ -424,11 +448,12 @@ func (p *pcase) commit(k int, mid bool) string {
 	if err != nil {
 		return "commit load-error"
 	}
-	h := state.LastBlockHeight + 1
-	if int(h) > p.cd.n {
+	h := p.cd.next(state.LastBlockHeight) // cs.Height of updateToState
+	bi := p.cd.idx(h)
+	if bi == 0 {
 		return p.line("commit out=no-block")
 	}
-	block, ps := p.cd.blocks[h], p.cd.parts[h]
+	block, ps := p.cd.blocks[bi], p.cd.parts[bi]
 	be := sm.NewBlockExecutor(p.stateStore, log.NewNopLogger(), p.proxy.Consensus(), nopMempool{}, sm.EmptyEvidencePool{})
 	if err := be.ValidateBlock(state, block); err != nil {
 		p.die()
@@ -441,7 +466,7 @@ func (p *pcase) commit(k int, mid bool) string {
 		p.pvH = h // the validator's votes for h: signed (privval) and logged (WAL)
 		if p.blockStore.Height() < block.Height {
 			p.tick()
-			p.blockStore.SaveBlock(block, ps, p.cd.commits[h])
+			p.blockStore.SaveBlock(block, ps, p.cd.commits[bi])
 		}
 		p.tick()
 		p.walEnd = h
@@ -466,19 +491,19 @@ func (p *pcase) commit(k int, mid bool) string {
 }
 
 func (p *pcase) saveblock() string {
-	h := p.blockStore.Height() + 1
-	if int(h) > p.cd.n {
+	k := p.cd.idx(p.cd.next(p.blockStore.Height()))
+	if k == 0 {
 		return p.line("saveblock out=no-block")
 	}
 	p.die()
-	p.blockStore.SaveBlock(p.cd.blocks[h], p.cd.parts[h], p.cd.commits[h])
+	p.blockStore.SaveBlock(p.cd.blocks[k], p.cd.parts[k], p.cd.commits[k])
 	return p.line("saveblock out=ok")
 }
 
 func (p *pcase) setresp(h int) string {
 	r := &tmstate.ABCIResponses{BeginBlock: &abci.ResponseBeginBlock{}, EndBlock: &abci.ResponseEndBlock{}}
-	if h >= 1 && h <= p.cd.n && p.cd.resps[h] != nil {
-		r = p.cd.resps[h]
+	if k := p.cd.idx(int64(h)); k > 0 && p.cd.resps[k] != nil {
+		r = p.cd.resps[k]
 	}
 	if err := p.inner.SaveABCIResponses(int64(h), r); err != nil {
 		return "setresp error"
@@ -488,12 +513,13 @@ func (p *pcase) setresp(h int) string {
 
 func (p *pcase) check() string {
 	_, _, j := p.app.snapshot()
-	committed, bad := journalCheck(j, func(h int64) ([]int, bool) {
-		if h < 1 || int(h) > p.cd.n {
+	committed, bad := journalCheckIH(j, func(h int64) ([]int, bool) {
+		k := p.cd.idx(h)
+		if k == 0 {
 			return nil, false
 		}
-		return p.cd.txs[h-1], true
-	})
+		return p.cd.txs[k-1], true
+	}, p.cd.ih)
 	if bad != "" {
 		return "wf=0"
 	}
